@@ -31,14 +31,24 @@ def do_replay(path, as_json):
         print("unknown driver %s" % rp["driver"])
         return 2
     out = d[0].run(rp["case"])
-    obs = json.dumps(dict(ok=out.ok, cls=out.cls, ref=str(out.ref), impl=str(out.impl)), sort_keys=True)
+    how = "case alone"
+    if out.ok and "unit" in rp:
+        # passes on fresh objects: re-execute the unit it was found in up to that position (history-dependent defect?)
+        k = -1
+        for case, o in d[0].execute(rp["unit"]):
+            k += 1
+            if k == rp["unit_pos"]:
+                out = o
+                how = "after replaying the first %d cases of its work unit (history dependent: the case alone passes)" % k
+                break
+    obs = json.dumps(dict(ok=out.ok, cls=out.cls, ref=str(out.ref), impl=str(out.impl), how=how), sort_keys=True)
     print("OBS " + obs)
     if not as_json:
         print("property=%s driver=%s" % (prop, rp["driver"]))
         print("case: %s" % json.dumps(rp["case"], sort_keys=True)[:2000])
         print("reference : %s" % out.ref)
         print("pycoin    : %s" % out.impl)
-        print("still disagrees" if not out.ok else "agrees now")
+        print(("still disagrees (%s)" % how) if not out.ok else "agrees now")
         if not out.ok:
             print("VIOLATION property=%s replay=%s" % (prop, os.path.abspath(path)))
     return 0 if out.ok else 1
